@@ -10,6 +10,7 @@ THEOREMS = [("C18", ["C18_enc", "C18_dec", "C18_mismatch", "C18_short", "C18_rou
             ("SingleObjectSinkProofs", ["so_encode_sink_header_does_not_fit", "so_encode_sink_vec_header"])]
 PROOF_FILES = ["proofs/SingleObjectProofs.v", "proofs/SingleObjectChunkProofs.v", "proofs/ReaderProofs.v", "props/C18.v", "proofs/SingleObjectSinkProofs.v", "proofs/SinkWriteProofs.v"]
 TRUSTED_BASE = [
+    "documents: lib/docgen.py renders the graph as JSON (Python); the expected header is the MODEL's fingerprint of the model's own parse of that document (Parse.parse_schema, CanonicalForm.fingerprint); neighbours (lib/p_C18.neighbours, Python) only propose candidate schemas -- whether their canonical form differs is decided by the model",
     "Coq 8.16.1 kernel; no axioms (Print Assumptions: closed)",
     "hand-written model/SingleObject.v of single_object_encoding.rs over the models of the datum codec and of the fingerprint (C08), tied by the correspondence run",
     "extraction (ExtrOcamlBasic) + ocaml/driver.ml; Rust harness (sinks of `sos`: Vec, a writer taking at most K bytes per write call, a fixed-size slice)",
@@ -128,6 +129,98 @@ def edit_histories(rng, n):
             out.append((nodes, ops, cur, v))
     return out
 
+def name_graphs(rng, n):
+    """schemas whose difficulty is in the NAMES (lib/docgen.py NameGraphGen: few simple names spread over several namespaces --
+    X, ns.X, other.X: distinct types sharing their short name --, nested in one another in every (enclosing namespace, own
+    namespace) arrangement; gen.py graphs with namespaces) with a conforming value. -> [(nodes, evalue)]"""
+    import docgen as DG
+    out = []
+    for _ in range(n * 6):
+        if len(out) >= n:
+            break
+        if rng.random() < 0.7:
+            nodes = DG.NameGraphGen(rng, logical=False).build()
+        else:
+            nodes = G.SchemaGen(rng, max_nodes=rng.choice([3, 6, 12]), max_depth=rng.choice([2, 4]),
+                                namespaces=rng.choice([("ns", "ns.sub", "other"), ("", "ns", "ns.sub")]), ref_prob=0.3).build()
+        if not plain_valid(nodes):
+            continue
+        try:
+            v = G.ValueGen(rng, nodes, layouts=False).gen(0)
+        except (RecursionError, IndexError, TypeError, ValueError):
+            v = None
+        if v is not None:
+            out.append((nodes, v))
+    return out
+
+def documents(rng, nodes, k):
+    """up to k JSON spellings of the graph (lib/docgen.py DocGen: namespace in the dotted name / `namespace` attribute / inherited /
+    explicit "namespace": "" for a null-namespace type inside a namespace / ".X"; definition at first use or later; references
+    bare, dotted, with a leading dot). -> [(document, text)]"""
+    import docgen as DG
+    out, seen = [], set()
+    for i in range(k * 3):
+        if len(out) >= k:
+            break
+        try:
+            doc = DG.DocGen(rng, nodes, forward=0.0 if i % 2 == 0 else 0.5, sibling_defs=(i % 5 == 4)).gen(0, None)
+        except DG.Unspellable:
+            continue
+        t = DG.to_text(doc, rng)
+        if t not in seen:
+            seen.add(t)
+            out.append((doc, t))
+    return out
+
+def neighbours(rng, nodes, limit):
+    """schemas that differ from `nodes` in ONE named type: its namespace (every other namespace in use, the null namespace, a new
+    one) or its definition (fixed: size + 1; enum: one more symbol / symbols reversed; record: fields reversed / one more field /
+    one field's type changed). -> [(what, nodes')] (names stay pairwise distinct)"""
+    import wrap
+    from docgen import split_name
+    named = [k for k, n in enumerate(nodes) if n.t in ("record", "enum", "fixed")]
+    names = {nodes[k].name for k in named}
+    nss = list(dict.fromkeys([split_name(nodes[k].name)[0] for k in named] + [None, "ns", "zz.other"]))
+    out = []
+    for k in named:
+        ns, simple = split_name(nodes[k].name)
+        for ns2 in nss:
+            full2 = (ns2 + "." + simple) if ns2 else simple
+            if ns2 != ns and full2 not in names:
+                c = wrap.shift(nodes, 0)
+                c[k].name = full2
+                out.append(("namespace of %s -> %s" % (nodes[k].name, full2), c))
+        c = wrap.shift(nodes, 0)
+        n = c[k]
+        if n.t == "fixed":
+            n.size += 1
+            out.append(("size of %s" % n.name, c))
+        elif n.t == "enum":
+            if len(n.symbols) > 1 and rng.random() < 0.5:
+                n.symbols = list(reversed(n.symbols))
+                out.append(("symbols of %s reversed" % n.name, c))
+            else:
+                n.symbols = list(n.symbols) + ["Zz9"]
+                out.append(("one more symbol in %s" % n.name, c))
+        else:
+            r = rng.random()
+            if len(n.fields) > 1 and r < 0.4:
+                n.fields = list(reversed(n.fields))
+                out.append(("fields of %s reversed" % n.name, c))
+            elif n.fields and r < 0.7:
+                i = rng.randrange(len(n.fields))
+                old = c[n.fields[i][1]].t
+                c.append(G.Node("long" if old != "long" else "string"))
+                n.fields = list(n.fields)
+                n.fields[i] = (n.fields[i][0], len(c) - 1)
+                out.append(("type of field %s of %s" % (n.fields[i][0], n.name), c))
+            else:
+                c.append(G.Node("int"))
+                n.fields = list(n.fields) + [("zz9", len(c) - 1)]
+                out.append(("one more field in %s" % n.name, c))
+    rng.shuffle(out)
+    return out[:limit]
+
 def run(ctx):
     rng = random.Random(ctx["seed"] * 1000003 + 18)
     n = 350 if ctx["tier"] == "quick" else 15000
@@ -137,6 +230,10 @@ def run(ctx):
     zt = zero_tail_schemas(rng, ctx["tier"])
     zero_tail = {G.schema_sx(nodes): z for nodes, v, z in zt}
     pairs += [(nodes, v) for nodes, v, z in zt]
+    # schemas whose named types share short names across namespaces / nest in every namespace arrangement
+    ng = name_graphs(rng, 120 if ctx["tier"] == "quick" else 5000)
+    ng_from = len(pairs)
+    pairs += ng
     sp = codec.spec_batch(pairs)
     enc_lines = ["sos %s %s" % (s["schema"], s["present"]) for s in sp]
     ei, em = codec.both(enc_lines)
@@ -155,6 +252,7 @@ def run(ctx):
             sink_lines.append("sos %s %s (sink fixed %d)" % (s["schema"], s["present"], x)); sink_meta.append((s, "too-small"))
     ki, km = codec.both(sink_lines)
     violations, diffs, samples, distinct = [], [], [], set()
+    violations_pre = []
     from collections import Counter
     dist = Counter()
     dec_lines, dec_meta = [], []
@@ -248,6 +346,84 @@ def run(ctx):
         for o in rng.sample(msgs, min(len(msgs), 10)):
             if o[3] != pcf:
                 dec_lines.append("sod %s any %s %s" % (s["schema"], C.hx(o[1]), mode())); dec_meta.append(("other-schema", "err"))
+    # ---- the same name-heavy schemas given as JSON DOCUMENTS (every namespace spelling of lib/docgen.py) and their neighbours
+    import docgen as DG
+    quick = ctx["tier"] == "quick"
+    doc_cases = []          # (spec entry, document, text)
+    for s in sp[ng_from:ng_from + len(ng)]:
+        for doc, text in documents(rng, s["nodes"], 2 if quick else 3):
+            doc_cases.append((s, doc, text))
+    mparse = C.run_parallel(C.AVROMODEL, ["parse " + DG.to_sx(doc) for _, doc, _ in doc_cases])
+    dlines, dmeta = [], []
+    for (s, doc, text), rp in zip(doc_cases, mparse):
+        pp = C.parse_sx(rp)[0]
+        if pp[0] != "ok":
+            continue
+        # pp: model's parse of the document: graph, canonical form, fingerprint, text, specification canonical form (PcfSpec)
+        mfp, mpcf = C.unhex(pp[3]), pp[2]
+        sch = "(json %s)" % C.hx(text)
+        good = b"\xc3\x01" + mfp + C.unhex(s["canon"])
+        dlines.append("sos %s %s" % (sch, s["present"])); dmeta.append(("doc-sos", C.hx(good), text))
+        for m in ("slice", "(chunks %d)" % rng.randint(1, 12)):
+            dlines.append("sod %s %s %s %s" % (sch, rng.choice(["any", s["ttarget"]]), C.hx(good), m))
+            dmeta.append(("doc-sod-valid", None, text))
+            dmeta[-1] = ("doc-sod-valid", "(ok %s)" % (s["dany"] if " any " in dlines[-1][len(sch) + 4:len(sch) + 9] else s["dtyped"]), text)
+    # neighbours: one named type in another namespace / with another definition. A message written under the neighbour (header:
+    # the model's fingerprint of the neighbour, and the fingerprint the CRATE gives the neighbour when it differs) must be
+    # rejected under the schema -- given as nodes and as each of its documents -- whenever the model's canonical forms differ
+    nb = []
+    for s in sp[ng_from:ng_from + len(ng)]:
+        for what, c in neighbours(rng, s["nodes"], 6 if quick else 12):
+            nb.append((s, what, c))
+    nb_m = C.run_parallel(C.AVROMODEL, ["fp " + G.schema_sx(c) for _, _, c in nb])
+    nb_i = C.run_parallel(C.AVRODRIVE, ["fp " + G.schema_sx(c) for _, _, c in nb])
+    own_m = {id(s): r for s, r in zip(sp[ng_from:ng_from + len(ng)], C.run_parallel(C.AVROMODEL, ["fp " + s["schema"] for s in sp[ng_from:ng_from + len(ng)]]))}
+    docs_of = {}
+    for (s, doc, text), rp in zip(doc_cases, mparse):
+        if rp.startswith("(ok"):
+            docs_of.setdefault(id(s), []).append(text)
+    nb_fps = {}
+    for (s, what, c), rm, ri in zip(nb, nb_m, nb_i):
+        pm, pi, po = C.parse_sx(rm)[0], C.parse_sx(ri)[0], C.parse_sx(own_m[id(s)])[0]
+        if pm[0] != "ok" or po[0] != "ok":
+            continue
+        if pm[2] == po[2]:
+            continue            # same canonical form: nothing to tell apart
+        if pm[1] in nb_fps and nb_fps[pm[1]] != pm[2]:
+            violations_pre.append({"what": "two different canonical forms share a fingerprint (model)", "a": pm[2][:200], "b": nb_fps[pm[1]][:200]})
+        nb_fps[pm[1]] = pm[2]
+        if pm[1] == po[1]:
+            violations_pre.append({"what": "schemas that differ in one named type (%s) have the same model fingerprint" % what, "schema": s["schema"][:400]})
+            continue
+        heads = [pm[1]] + ([pi[1]] if pi[0] == "ok" and pi[1] != pm[1] else [])
+        for hd in heads:
+            bad = b"\xc3\x01" + C.unhex(hd) + C.unhex(s["canon"])
+            forms = [s["schema"]] + ["(json %s)" % C.hx(t) for t in docs_of.get(id(s), [])]
+            for sch in forms:
+                dlines.append("sod %s any %s %s" % (sch, C.hx(bad), rng.choice(["slice", "slice", "(chunks 1)", "(chunks %d)" % rng.randint(2, 12)])))
+                dmeta.append(("neighbour-schema: " + what, "err", None))
+    for line, ri, (kind, want, text) in zip(dlines, C.run_parallel(C.AVRODRIVE, dlines), dmeta):
+        distinct.add(line)
+        dist[kind.split(":")[0]] += 1
+        if ri.startswith("(bad-case"):
+            # the crate does not parse a document that the model parses: a difference of the parsers (C07), not a header violation
+            diffs.append({"impl_case": line, "model_case": "parse", "impl": ri[:300], "model": "document accepted"})
+            continue
+        if kind == "doc-sos":
+            p = C.parse_sx(ri)[0]
+            if p[0] != "ok":
+                violations.append({"impl_case": line, "what": "single-object serialization under a schema given as a JSON document failed", "impl": ri[:300], "document": text[:600]})
+            elif p[1] != want:
+                violations.append({"impl_case": line, "what": "schema given as a JSON document: the message is not C3 01 + the fingerprint of the document's schema "
+                                   "(model: Parse.parse_schema then CanonicalForm.fingerprint) + datum", "impl": ri[:300], "expected": want[:300], "document": text[:600]})
+        elif want == "err":
+            if not ri.startswith("(err"):
+                violations.append({"impl_case": line, "what": "a message written under a schema that differs in one named type (%s; different canonical "
+                                   "form) was decoded" % kind, "impl": ri[:300]})
+        elif G.erase_borrow_text(ri) != want:
+            violations.append({"impl_case": line, "what": "schema given as a JSON document: a well-formed message (the model's fingerprint of the document) was not decoded to its value",
+                               "impl": ri[:300], "expected": want[:300], "document": (text or "")[:600]})
+    violations += violations_pre
     # truncated headers whose missing bytes are 0x00 (or 0xFF) in the schema's fingerprint, with a zero-length datum: a reader
     # that pads a short header instead of failing would accept them. Schemas are searched for such fingerprints.
     cand = ["(schema (node (record %s) none))" % C.hx("Empty%d" % i) for i in range(700 if ctx["tier"] == "quick" else 6000)]
@@ -322,7 +498,7 @@ def run(ctx):
         elif G.erase_borrow_text(ri) != want:
             violations.append({"impl_case": line, "what": "a valid single-object message did not decode to the value", "impl": ri[:300], "expected": want[:300]})
     samples = [{"message": C.hx(m[1])[:80], "fingerprint": C.hx(m[2])} for m in msgs[:4]]
-    return {"evaluations": len(enc_lines) + len(dec_lines) + len(sink_lines) + len(hlines), "distinct_nontrivial": len(distinct),
+    return {"evaluations": len(enc_lines) + len(dec_lines) + len(sink_lines) + len(hlines) + len(dlines), "distinct_nontrivial": len(distinct),
             "rule": "schemas x values: message = C3 01 + fingerprint + extracted specification encoding, into a Vec, through writers taking at most "
                     "K bytes per write call and into exact-size slices (same message), into too-small slices (Err); decoded back (dynamic and typed target) "
                     "from a slice and from chunked readers; every header truncation length 0..9 (incl. schemas searched for fingerprints ending in 00 / FF, cut "
@@ -333,5 +509,9 @@ def run(ctx):
                     "size 0 (root, record, array, map, unions, decimal) and zero-byte datums (message = header); histories on one SchemaMut "
                     "(fingerprint / json / clone / touch, then edits through nodes_mut(), then freeze) followed by single-object encoding (header = "
                     "fingerprint of the graph as frozen) and decoding (message with that fingerprint accepted, message with the pre-edit "
-                    "fingerprint rejected); model vs crate",
+                    "fingerprint rejected); schemas whose named types share short names across namespaces / nest in every namespace arrangement "
+                    "(docgen.NameGraphGen), as node graphs and as JSON DOCUMENTS in every namespace spelling (dotted name, namespace attribute, inherited, "
+                    "explicit empty namespace inside a namespace, leading dot): header = the model's fingerprint of the document, well-formed messages "
+                    "accepted, and messages written under a NEIGHBOUR schema (one named type moved to another namespace, or its definition changed: "
+                    "size, symbols, field order / types) rejected, with the model's and with the crate's own fingerprint of the neighbour; model vs crate",
             "samples": samples, "violations": violations, "model_diffs": diffs, "distribution": dict(dist)}
